@@ -520,7 +520,8 @@ J_copy(e) ==
                                                      \o V("zone-name", p.same_tzname, "tzname() and utcoffset() as before")
                                                      \o V("fold", p.f = x.f, x.f) ELSE <<>>)          \* `fold` is a public field too
                   [] x.k \in {"date", "time"} -> (IF p.k = x.k THEN V("fields", p.w = x.w, x.w) \o V("equal", p.eq, TRUE)
-                                                     \o (IF x.k = "time" THEN V("zone-name", p.same_tzname, "tzname() and utcoffset() as before") ELSE <<>>)
+                                                     \o (IF x.k = "time" THEN V("zone-name", p.same_tzname, "tzname() and utcoffset() as before")
+                                                                              \o V("zone", ZRef(p.z) = ZRef(x.z), x.z) ELSE <<>>)
                                                  ELSE <<>>)
                   [] x.k = "dur" -> (IF p.k = "dur" THEN V("components", DurFields(p) = DurFields(x), DurFields(x))
                                                        \o V("equal", p.eq, TRUE) ELSE <<>>)
@@ -840,7 +841,9 @@ J_parse_any(e) ==
 ItemKinds(items) == [i \in 1..Len(items) |-> <<items[i][1], items[i][2]>>]
 TokSet(items) == {items[i][2] : i \in {j \in 1..Len(items) : items[j][1] = "tok"}}
 J_format(e) ==
-  LET s == Src(e)  a == e.a  L == LOC[a.locale]
+  LET s == Src(e)  a == e.a
+      \* the named helpers render in the process-wide default locale, except to_cookie_string(), which pins English
+      L == IF "proc_locale" \in DOMAIN a /\ a.named # "cookie" THEN LOC[a.proc_locale] ELSE LOC[a.locale]
       want == FormatItems(a.items, s, a.zname, L, 1)
   IN R(<<a.method, a.locale, B(IsNaive(s)), B(OffOf(s) < 0), ClassOf(s)>>,
        V("format-string", RenderFormat(a.items, 1) = a.fmt, RenderFormat(a.items, 1))
